@@ -89,6 +89,10 @@ def cases(tier, seed):
     # the memory model of the C back end rests on its hash-map helper text: checked by vf/chelper.py
     out.append({'fam': 'HELPER', 'k': 'chelper', 'limbs': 1, 'backend': 'compiled'})
     out.append({'fam': 'HELPER', 'k': 'chelper', 'limbs': 2, 'backend': 'compiled'})
+    # "leave the same memory contents": CompiledSimulation shows them through inspect_mem(), which calls the C lookup via ctypes
+    for aw in (4, 31, 32, 33, 64):
+        for bw in (8, 70):
+            out.append({'fam': 'HELPER', 'k': 'inspect_mem', 'aw': aw, 'bw': bw, 'backend': 'compiled'})
     return out
 
 
@@ -164,6 +168,8 @@ def run_case(case, ob, tier):
     if case.get('k') == 'chelper':
         from . import c08
         return c08.run_chelper(case, ob, 'C02:compiled:hash-map-helper')
+    if case.get('k') == 'inspect_mem':
+        return run_inspect_mem(case, ob, 'C02:compiled:inspect_mem:aw=%d' % case['aw'])
     # every enabled write port doubles the explored paths per cycle: when the budget is exceeded the same design is decided for
     # fewer cycles (noted in the evidence) instead of not at all
     for K in [case['K']] + [k_ for k_ in (3, 2) if k_ < case['K']]:
@@ -174,6 +180,75 @@ def run_case(case, ob, tier):
                 raise
             ob.notes.append('path budget exceeded at K=%d: decided for fewer cycles' % K)
             ob.n, ob.unsat, ob.sat, ob.unknown = 0, 0, [], []
+
+
+def inspect_design(case):
+    pyrtl.reset_working_block()
+    aw, bw = case['aw'], case['bw']
+    m = pyrtl.MemBlock(bitwidth=bw, addrwidth=aw, name='m', asynchronous=True)
+    wa, wd, we, ra = pyrtl.Input(aw, 'wa'), pyrtl.Input(bw, 'wd'), pyrtl.Input(1, 'we'), pyrtl.Input(aw, 'ra')
+    m[wa] <<= pyrtl.MemBlock.EnabledWrite(wd, we)
+    o = pyrtl.Output(bw, 'rd')
+    o <<= m[ra]
+    return pyrtl.working_block(), m
+
+
+def ctypes_key(fn, ind_bv):
+    """the 64-bit key the C function receives for a Python int passed as its 2nd argument, by the ctypes rules: without
+    argtypes an int goes as a C int (masked to 32 bits; widened with its sign in the 64-bit argument register the callee
+    reads as uint64_t); with argtypes it is converted to the declared type"""
+    import ctypes
+    at = getattr(fn, 'argtypes', None)
+    if not at or len(at) < 2:
+        return z3.SignExt(32, z3.Extract(31, 0, ind_bv)), 'no argtypes: C int'
+    ty = at[1]
+    nbits = 8 * ctypes.sizeof(ty)
+    signed = ty(-1).value < 0
+    low = z3.Extract(nbits - 1, 0, ind_bv) if nbits < 64 else ind_bv
+    if nbits == 64:
+        return low, ty.__name__
+    return (z3.SignExt if signed else z3.ZeroExt)(64 - nbits, low), ty.__name__
+
+
+def run_inspect_mem(case, ob, site):
+    """the real DllMemInspector.__getitem__ on a symbolic index over an arbitrary memory state; ctypes is a stub (above)"""
+    from pyrtl import compilesim
+    block, mem = inspect_design(case)
+    sim = pyrtl.CompiledSimulation(block=block)
+    insp = sim.inspect_mem(mem)
+    limbs = sim._limbs(mem)
+    W = 64 * limbs
+    A = z3.Array('cmem', z3.BitVecSort(64), z3.BitVecSort(W))       # what the C hash map holds (any history)
+    ind = z3.BitVec('ind', 64)
+    assume = [z3.ULT(ind, z3.BitVecVal(1 << case['aw'], 65 if case['aw'] == 64 else 64))] if case['aw'] < 64 else []
+    key, how = ctypes_key(sim._mem_lookup, ind)
+
+    class Limbs(object):
+        def __getitem__(self_, n):
+            return SymInt(z3.ZeroExt(W + 64 - 64, z3.Extract(64 * n + 63, 64 * n, z3.Select(A, key))), False)
+
+    class FakeSim(object):
+        def _mem_lookup(self_, memptr, i):
+            return Limbs()
+    real_sim = insp._sim
+    insp._sim = FakeSim()
+    try:
+        paths = sym.explore(lambda: insp[SymInt(ind, False)], assumptions=assume)
+    finally:
+        insp._sim = real_sim
+    ob.paths += len(paths)
+    ob.notes.append('ctypes stub: lookup receives its key as %s' % how)
+    for p_ in paths:
+        if p_.exc is not None:
+            ob.fact('inspect_mem-index-accepted', False, site + ':raises', detail=repr(p_.exc))
+            continue
+        got = sym.to_bv(p_.result, W + 64)
+        want = z3.ZeroExt(64, z3.Select(A, ind))        # the generated C keys its reads/writes by the address limb itself
+
+        def extract(m):
+            return {'ind': m.eval(ind, model_completion=True).as_long()}
+        ob.prove('inspect_mem[i]==word-the-simulation-holds-at-i', got == want, assume + p_.pc, None, site=site + ':value',
+                 extract=extract, vacuity=True)
 
 
 def _run_case(case, ob, tier):
@@ -296,6 +371,18 @@ def replay(cex):
     if case.get('k') == 'chelper':
         from . import c08
         return c08.replay(cex)
+    if case.get('k') == 'inspect_mem':
+        # write a non-zero word at the index through the simulation, read it back through inspect_mem and through a read port
+        block, mem = inspect_design(case)
+        ind = cex['ind'] & ((1 << case['aw']) - 1)
+        bad = []
+        for sim in (pyrtl.CompiledSimulation(block=block), pyrtl.Simulation(block=block)):
+            sim.step({'wa': ind, 'wd': 5, 'we': 1, 'ra': 0})
+            sim.step({'wa': 0, 'wd': 0, 'we': 0, 'ra': ind})
+            got = sim.inspect_mem(mem)[ind] if isinstance(sim, pyrtl.CompiledSimulation) else sim.inspect_mem(mem).get(ind, 0)
+            if got != 5 or sim.inspect('rd') != 5:
+                bad.append('%s: after writing 5 to address %d inspect_mem shows %r, the read port %r' % (type(sim).__name__, ind, got, sim.inspect('rd')))
+        return bool(bad), '\n'.join(bad)
     block = prep(case)
     K = case['K']
     mv = cex.get('model', {})
